@@ -6,15 +6,17 @@ namespace MV
 open MV.Gen MV.GM VM
 
 /-- every way a capacity-changing decision program can end (explicit header states) -/
-inductive CapOutcome (E : Env) (gs : GS) : Except Panic Unit × GS → Prop
-  | same : CapOutcome E gs (.ok (), gs)
-  | rejected (p : Panic) : p.unwinding = true → CapOutcome E gs (.error p, gs)
-  | allocFailed (req : Action) : req.refusedReq = true → CapOutcome E gs (.error .allocError, gs.refused req)
+inductive CapOutcomeR {α : Type} (E : Env) (gs : GS) (val : α) : Except Panic α × GS → Prop
+  | same : CapOutcomeR E gs val (.ok val, gs)
+  | rejected (p : Panic) : p.unwinding = true → CapOutcomeR E gs val (.error p, gs)
+  | allocFailed (req : Action) : req.refusedReq = true → CapOutcomeR E gs val (.error .allocError, gs.refused req)
   | grownAlloc (c a : Nat) (L : Layout) : gs.isDefault = true → make_layout E c a = .ok L →
-      CapOutcome E gs (.ok (), gs.grown c a (.alloc L.size L.align))
+      CapOutcomeR E gs val (.ok val, gs.grown c a (.alloc L.size L.align))
   | grownRealloc (c : Nat) (L L0 : Layout) : gs.isDefault = false → gs.L ≤ c →
       make_layout E c gs.align = .ok L → make_layout E gs.cap gs.align = .ok L0 →
-      CapOutcome E gs (.ok (), gs.grown c gs.align (.realloc L0.size L0.align L.size))
+      CapOutcomeR E gs val (.ok val, gs.grown c gs.align (.realloc L0.size L0.align L.size))
+
+abbrev CapOutcome (E : Env) (gs : GS) := CapOutcomeR E gs ()
 
 /-- `grow` called with the handle's own alignment (as every caller except `with_alignment` does) -/
 theorem grow_capOutcome (E : Env) (gs : GS) (c a : Nat) (hf : gs.fresh = none) (hlen : gs.L ≤ c)
@@ -104,13 +106,16 @@ theorem shrink_to_capOutcome (E : Env) (gs : GS) (m : Nat) (hf : gs.fresh = none
         exact grow_capOutcome E gs m _ hf (by omega) (fun hd => A_of_alloc E gs hd)
 
 /-- what a capacity-changing program run through `lift` does to a well-formed handle -/
-inductive CapMem (X : Ctx) (s : St) (es : List Elem) : Except Panic Unit × St → Prop
-  | same : CapMem X s es (.ok (), s)
+inductive CapMemR {α : Type} (X : Ctx) (s : St) (es : List Elem) (val : α) : Except Panic α × St → Prop
+  | same : CapMemR X s es val (.ok val, s)
   | stopped (p : Panic) (s' : St) : s'.v = s.v → Panic.benign p = true →
       (∀ e ∈ newEvents s s', ∃ a b, e = .alloc a b ∨ e = .allocFail ∨ ∃ c, e = .realloc a b c) →
-      CapMem X s es (.error p, s')
+      CapMemR X s es val (.error p, s')
   | grown (s' : St) : Abs X s'.v es → s'.v.isDefault = false → s'.v.len = es.length →
-      CapMem X s es (.ok (), s')
+      s'.sys.nextId = s.sys.nextId → s'.sys.cbIdx = s.sys.cbIdx →
+      CapMemR X s es val (.ok val, s')
+
+abbrev CapMem (X : Ctx) (s : St) (es : List Elem) := CapMemR X s es ()
 
 theorem req_events (c : Cfg) (sys : Sys) (blk : Option Blk) (req : Action) (h : req.refusedReq = true) :
     ∃ evs, replay c { sys := sys, blk := blk, fresh := none } [req] =
@@ -122,9 +127,9 @@ theorem req_events (c : Cfg) (sys : Sys) (blk : Option Blk) (req : Action) (h : 
   · rename_i os oa ns
     exact ⟨_, replay_realloc_fail .., by intro e he; simp at he; rcases he with rfl | rfl; exact ⟨os, oa, .inr (.inr ⟨ns, rfl⟩)⟩; exact ⟨0, 0, .inr (.inl rfl)⟩⟩
 
-theorem lift_cap (X : Ctx) (g : GM Unit) (s : St) (es : List Elem) (h : Abs X s.v es)
-    (hg : CapOutcome X.env (hsOf s.v s.sys.allocIdx) (g (hsOf s.v s.sys.allocIdx))) :
-    CapMem X s es (VM.lift X g s) := by
+theorem lift_cap {α : Type} (X : Ctx) (g : GM α) (val : α) (s : St) (es : List Elem) (h : Abs X s.v es)
+    (hg : CapOutcomeR X.env (hsOf s.v s.sys.allocIdx) val (g (hsOf s.v s.sys.allocIdx))) :
+    CapMemR X s es val (VM.lift X g s) := by
   have hL : (hsOf s.v s.sys.allocIdx).L = es.length := h.len_eq
   generalize hout : g (hsOf s.v s.sys.allocIdx) = out at hg
   cases hg with
@@ -159,24 +164,24 @@ theorem lift_cap (X : Ctx) (g : GM Unit) (s : St) (es : List Elem) (h : Abs X s.
     have hnil : es = [] := (h.sentinel hd').2
     subst hnil
     obtain ⟨v', evs, hl, habs, hvd, _, _, hvl⟩ := lift_grown_alloc X g s c a L _ h hd' hLy hout
-    rw [hl]; exact .grown _ habs hvd (by simpa using hvl)
+    rw [hl]; exact .grown _ habs hvd (by simpa using hvl) rfl rfl
   | grownRealloc c L L0 hd hlen hLy hL0 =>
     have hd' : s.v.isDefault = false := hd
     obtain ⟨v', evs, hl, habs, hvd, _, _, hvl⟩ :=
       lift_grown_realloc X g s es c L L0 _ h hd' hLy hL0 (by rw [← hL]; exact hlen) hout
-    rw [hl]; exact .grown _ habs hvd hvl
+    rw [hl]; exact .grown _ habs hvd hvl rfl rfl
 
 /-- `reserve`, `reserve_exact`, `shrink_to_fit`, `shrink_to` never change what the vector exposes:
     they return with the same elements (possibly in a new, correctly quoted block) or stop benignly
     with the handle untouched. -/
 theorem reserve_mem (X : Ctx) (s : St) (es : List Elem) (n : Nat) (h : Abs X s.v es) :
-    CapMem X s es (Vec.reserve X n s) := lift_cap X _ s es h (reserve_capOutcome X.env _ n rfl)
+    CapMem X s es (Vec.reserve X n s) := lift_cap X _ () s es h (reserve_capOutcome X.env _ n rfl)
 theorem reserve_exact_mem (X : Ctx) (s : St) (es : List Elem) (n : Nat) (h : Abs X s.v es) :
-    CapMem X s es (Vec.reserve_exact X n s) := lift_cap X _ s es h (reserve_exact_capOutcome X.env _ n rfl)
+    CapMem X s es (Vec.reserve_exact X n s) := lift_cap X _ () s es h (reserve_exact_capOutcome X.env _ n rfl)
 theorem shrink_to_fit_mem (X : Ctx) (s : St) (es : List Elem) (h : Abs X s.v es) :
-    CapMem X s es (Vec.shrink_to_fit X s) := lift_cap X _ s es h (shrink_to_fit_capOutcome X.env _ rfl)
+    CapMem X s es (Vec.shrink_to_fit X s) := lift_cap X _ () s es h (shrink_to_fit_capOutcome X.env _ rfl)
 theorem shrink_to_mem (X : Ctx) (s : St) (es : List Elem) (n : Nat) (h : Abs X s.v es) :
-    CapMem X s es (Vec.shrink_to X n s) := lift_cap X _ s es h (shrink_to_capOutcome X.env _ n rfl)
+    CapMem X s es (Vec.shrink_to X n s) := lift_cap X _ () s es h (shrink_to_capOutcome X.env _ n rfl)
 
 end MV
 
